@@ -62,18 +62,63 @@ def conflicts(rng):
                 mode=dict(origin=None, check_spec=False, no_conflicted=False, cov_every_step=True))
 
 
+def edit_vs_delete(rng):
+    """C02 family: a synchronised file is deleted (or renamed) on one side while the other side writes a newer
+    version, in either order, with any engine steps in between; the newer version must survive (covered set).
+    Both sides id-stable, one racing pair per drain, fresh names."""
+    cands = [f for f in CLEAN_FLAVOURS if not f.oip[0] and not f.oip[1]]
+    fl = rng.choice(cands)
+    g = EC.Gen(rng, fl, [0, 1], 0)
+    g.allow_empty = False
+    for _ in range(rng.randint(2, 5)):
+        rel = "/" + g.fresh("F")
+        g.tree[rel] = "F"
+        g.base.append(["create", g.abs(0, rel), g.content()])
+    g.sched.append(["drain"])
+    for _ in range(rng.randint(1, 3)):
+        files = g.files()
+        if not files:
+            break
+        rel = rng.choice(files)
+        x = rng.choice([0, 1])                 # the side that deletes
+        y = 1 - x
+        dele = ["user", x, ["delete", g.abs(x, rel)]]
+        edit = ["user", y, ["write", g.abs(y, rel), g.content()]]
+        first, second = (dele, edit) if rng.random() < 0.5 else (edit, dele)
+        g.sched.append(first)
+        g.engine_noise(0.5)
+        g.sched.append(second)
+        # the engine learns of the two changes in any order, with sync steps in between
+        for _ in range(rng.randint(0, 4)):
+            g.sched.append(rng.choice([["intake", 0], ["intake", 1], ["sync"]]))
+        if rng.random() < 0.3:
+            g.one_op_simple(rng.choice([0, 1]))
+        g.sched.append(["drain"])
+        del g.tree[rel]        # whatever the outcome, the name is not used again
+    return dict(flavour=fl.key(), base=g.base, schedule=g.sched, hash_mult=rng.choice([1, 3, 7, 11, 2654435761]),
+                mode=dict(origin=None, check_spec=False, no_conflicted=False, cov_every_step=True))
+
+
 def confinement(rng):
     """C12 family: one acting side (id-stable); objects inside the root, in other folders, in a prefix-sibling
     folder, at the account root; moves across the root boundary; roots by path or by oid; optionally a translate
     function that declines a sub-folder."""
     side = rng.choice([0, 1])
     base_fl = rng.choice([f for f in CLEAN_FLAVOURS if not f.oip[side]])
-    fl = E.Flavour(base_fl.oip, base_fl.cs, False, rng.choice(["path", "oid"]), base_fl.roots)
+    cs = base_fl.cs
+    mixed = rng.random() < 0.3
+    if mixed:
+        # providers of different case sensitivity; users act on the case-SENSITIVE side, where a folder whose name
+        # differs from the root only by case ('/Remote' next to '/remote') is a different folder outside the root
+        cs = (side == 0, side == 1)
+    fl = E.Flavour(base_fl.oip, cs, False, rng.choice(["path", "oid"]), base_fl.roots)
     g = EC.Gen(rng, fl, [side], 0)
     g.allow_empty = False
     root = fl.roots[side]
     sib = root + "2"                       # '/local2' : shares only a name prefix with the root
     outs = ["/other", sib, root + "x"]
+    if mixed:
+        outs.append("/" + root.strip("/").capitalize())
     decline = rng.random() < 0.3
     base, base_other = [], []
     g.make_base(rng.randint(1, 4))         # inside objects, created on side 0 and synchronised
@@ -174,6 +219,114 @@ def confinement(rng):
     return case
 
 
+def boundary_races(rng):
+    """C12 family (two-sided): side A moves a synchronised file (or a folder with files) across the root boundary
+    - out of the root, or to a path the translate function declines - while side B concurrently writes, renames or
+    deletes the SAME object (or a file inside the moved folder); the engine learns of the two changes in any order.
+    Whatever it does, it must never address anything outside a root (guards CONFINED / OUTSIDE); the views must
+    converge and no covered version may vanish.  Both sides id-stable or path-style (the fix bbf04b7 is id-agnostic).
+    Not generated: the peer renaming the moved-out FOLDER itself (known engine defect: empty folder left behind)."""
+    fl0 = rng.choice([f for f in CLEAN_FLAVOURS if f.cs == (True, True)])
+    fl = E.Flavour(fl0.oip, fl0.cs, False, rng.choice(["path", "oid"]), fl0.roots)
+    a = rng.choice([0, 1])
+    b = 1 - a
+    g = EC.Gen(rng, fl, [0, 1], 0)
+    g.allow_empty = False
+    base, base_other = [], []
+    out = "/outside"
+    (base if a == 0 else base_other).append(["mkdir", out])
+    files, folders = [], []
+    for i in range(rng.randint(2, 4)):
+        rel = "/" + g.fresh("F")
+        files.append(rel)
+        base.append(["create", g.abs(0, rel), g.content()])
+    for i in range(rng.randint(0, 2)):
+        d = "/" + g.fresh("D")
+        kids = []
+        base.append(["mkdir", g.abs(0, d)])
+        for _ in range(rng.randint(1, 2)):
+            k = d + "/" + g.fresh("F")
+            kids.append(k)
+            base.append(["create", g.abs(0, k), g.content()])
+        folders.append((d, kids))
+    sched = g.sched
+    sched.append(["drain"])
+    for _ in range(rng.randint(1, 3)):
+        if folders and rng.random() < 0.35:
+            d, kids = folders.pop(rng.randrange(len(folders)))
+            move = ["user", a, ["rename", g.abs(a, d), out + "/" + g.fresh("D")]]
+            k = rng.choice(kids)
+            r = rng.random()
+            if r < 0.4:
+                peer = ["user", b, ["write", g.abs(b, k), g.content()]]
+            elif r < 0.7:
+                peer = ["user", b, ["rename", g.abs(b, k), g.abs(b, d + "/" + g.fresh("F"))]]
+            else:
+                peer = ["user", b, ["delete", g.abs(b, k)]]
+        elif files:
+            f = files.pop(rng.randrange(len(files)))
+            move = ["user", a, ["rename", g.abs(a, f), out + "/" + g.fresh("F")]]
+            r = rng.random()
+            if r < 0.4:
+                peer = ["user", b, ["write", g.abs(b, f), g.content()]]
+            elif r < 0.75:
+                peer = ["user", b, ["rename", g.abs(b, f), g.abs(b, "/" + g.fresh("F"))]]
+            else:
+                peer = ["user", b, ["delete", g.abs(b, f)]]
+        else:
+            break
+        first, second = (move, peer) if rng.random() < 0.5 else (peer, move)
+        sched.append(first)
+        g.engine_noise(0.4)
+        sched.append(second)
+        for _ in range(rng.randint(0, 4)):
+            sched.append(rng.choice([["intake", 0], ["intake", 1], ["sync"]]))
+        sched.append(["drain"])
+    return dict(flavour=fl.key(), base=base, base_other=base_other, schedule=sched,
+                hash_mult=rng.choice([1, 3, 7, 11, 2654435761]),
+                mode=dict(origin=None, check_spec=False, no_conflicted=False, cov_every_step=False))
+
+
+def declined_races(rng):
+    """C12 family (two-sided, custom translate): side A renames a synchronised file to a path the application's
+    translate function declines (inside the root) while side B writes, renames or deletes the peer copy; any order.
+    Judged only by the guards on engine ACTIONS (CONFINED, OUTSIDE, DECLINED): a declined path is left alone whatever
+    else happens.  (What the views look like afterwards is the open finding E-12 and is not judged here.)"""
+    fl0 = rng.choice([f for f in CLEAN_FLAVOURS if f.cs == (True, True)])
+    fl = E.Flavour(fl0.oip, fl0.cs, False, rng.choice(["path", "oid"]), fl0.roots)
+    a = rng.choice([0, 1])
+    b = 1 - a
+    g = EC.Gen(rng, fl, [0, 1], 0)
+    g.allow_empty = False
+    base = [["mkdir", g.abs(0, "/private")], ["mkdir", g.abs(0, "/sub")]]
+    files = []
+    for i in range(rng.randint(1, 3)):
+        rel = rng.choice(["", "/sub"]) + "/" + g.fresh("F")
+        files.append(rel)
+        base.append(["create", g.abs(0, rel), g.content()])
+    sched = g.sched
+    sched.append(["drain"])
+    f = rng.choice(files)
+    move = ["user", a, ["rename", g.abs(a, f), g.abs(a, "/private/" + g.fresh("F"))]]
+    r = rng.random()
+    if r < 0.5:
+        peer = ["user", b, ["rename", g.abs(b, f), g.abs(b, rng.choice(["", "/sub"]) + "/" + g.fresh("F"))]]
+    elif r < 0.8:
+        peer = ["user", b, ["write", g.abs(b, f), g.content()]]
+    else:
+        peer = ["user", b, ["delete", g.abs(b, f)]]
+    first, second = (move, peer) if rng.random() < 0.5 else (peer, move)
+    sched.append(first)
+    g.engine_noise(0.4)
+    sched.append(second)
+    for _ in range(rng.randint(0, 5)):
+        sched.append(rng.choice([["intake", 0], ["intake", 1], ["sync"]]))
+    sched.append(["drain"])
+    return dict(flavour=fl.key(), base=base, base_other=[], schedule=sched, decline="private", ignore_names=["private"],
+                only_guards=[2, 3, 15], hash_mult=rng.choice([1, 3, 7, 11, 2654435761]),
+                mode=dict(origin=None, check_spec=False, no_conflicted=False, cov_every_step=False))
+
+
 def run_confinement(case, monitor):
     hooks = {}
     if case.get("decline"):
@@ -185,7 +338,11 @@ def run_confinement(case, monitor):
                 return None
             return cloudsync.CloudSync.translate(cs, side, path)
         hooks["translate"] = translate
-    return EC.run_case(case, monitor, hooks=hooks)
+    res = EC.run_case(case, monitor, hooks=hooks)
+    if case.get("only_guards") and res.verdict != [] and res.verdict[1] not in case["only_guards"]:
+        res.extra["ignored_guard"] = res.verdict[1]      # this family judges engine actions only
+        res.verdict = []
+    return res
 
 
 def restarts(rng):
@@ -262,6 +419,28 @@ def sb_two(i):
 
 sb_one.by_index = True
 sb_two.by_index = True
+
+# Stream B generator 2: the exhaustive tiny scope over a nested base tree (streamb_gen2.py, enumerated).
+# sb_nest = every case (C01); sb_nest_one = the one-sided cases (C03); sb_nest_two = the two-sided disjoint cases (C04);
+# in each enumeration every pair-history case precedes every triple-history case.
+from . import streamb_gen2 as SB2
+
+
+def sb_nest(i):
+    return SB2.case(i)
+
+
+def sb_nest_one(i):
+    return SB2.one(i)
+
+
+def sb_nest_two(i):
+    return SB2.two(i)
+
+
+sb_nest.by_index = True
+sb_nest_one.by_index = True
+sb_nest_two.by_index = True
 
 
 def _mk_sb_runner(prop):
